@@ -64,16 +64,27 @@ def _file_hash(path):
         return hashlib.sha256(fh.read()).hexdigest()
 
 
-def engine_hash():
+def engine_hash(subs=("engine", "harness")):
     h = hashlib.sha256()
-    for sub in ("engine", "harness"):
+    for sub in subs:
         root = os.path.join(VERIF, sub)
         for d, _, fs in sorted(os.walk(root)):
             for f in sorted(fs):
-                if f.endswith((".hpp", ".h", ".cpp", ".inl")):
+                if f.endswith((".hpp", ".h", ".inl")) or (sub == "engine" and f.endswith(".cpp")):
                     h.update(f.encode())
                     h.update(_file_hash(os.path.join(d, f)).encode())
     return h.hexdigest()
+
+
+_dep_hash = {}
+
+
+def dep_hash(src_text):
+    """hash of the framework headers a translation unit can include (engine/ and/or harness/ headers)"""
+    subs = tuple(sub for sub in ("engine", "harness") if ('"%s/' % sub) in src_text)
+    if subs not in _dep_hash:
+        _dep_hash[subs] = engine_hash(subs)
+    return _dep_hash[subs]
 
 
 _engine_hash = None
@@ -97,13 +108,10 @@ def build(src_text, name, cxx="g++", std="c++17", opt="-O1", flags=(), flavour="
           san=False, allow_fail=False):
     """Compile src_text (a complete TU) into a cached binary; returns its path (None if allow_fail and
     the compiler rejected it; the first error lines are then in build.last_error)."""
-    global _engine_hash
-    if _engine_hash is None:
-        _engine_hash = engine_hash()
     allflags = ["-std=" + std, opt] + BASE_FLAGS + FLAVOURS[flavour] + list(flags)
     if san:
         allflags += SAN_FLAGS
-    key = hashlib.sha256("\0".join([tree_hash(), _engine_hash, src_text, cxx] + allflags).encode()).hexdigest()[:20]
+    key = hashlib.sha256("\0".join([tree_hash(), dep_hash(src_text), src_text, cxx] + allflags).encode()).hexdigest()[:20]
     d = os.path.join(BUILD, key)
     exe = os.path.join(d, name)
     failmark = os.path.join(d, "FAILED")
